@@ -35,6 +35,24 @@ def comps_of(n, atts):
     return [find(i) for i in range(n)]
 
 
+def acyclic(n, atts):
+    indeg = [0] * n
+    out = [[] for _ in range(n)]
+    for a, b in atts:
+        indeg[b] += 1
+        out[a].append(b)
+    q = [i for i in range(n) if indeg[i] == 0]
+    seen = 0
+    while q:
+        x = q.pop()
+        seen += 1
+        for y in out[x]:
+            indeg[y] -= 1
+            if indeg[y] == 0:
+                q.append(y)
+    return seen == n
+
+
 def canon_trace(lines):
     """S-lines, ans, panic, calls; consecutive clause lines of one solver sorted (literal order ignored)"""
     out = []
@@ -121,6 +139,37 @@ class SolveProperty(Property):
             k = 12000
         for _ in range(k):
             fws.append(gen.random_framework(rng, self.max_n))
+        # medium-size frameworks (13-60 arguments): too large for the exponential reference deciders, covered by the
+        # call-by-call correspondence with the proved solver programs; components stay small or well-founded so that
+        # the enumerating solvers remain fast
+        for _ in range(24 if tier == "quick" else 400):
+            kind = rng.choice(["dag", "manycomps", "dagcomps"])
+            if kind == "dag":
+                n = rng.randint(13, 50)
+                order = list(range(n))
+                rng.shuffle(order)
+                atts = []
+                for i in range(1, n):
+                    for _ in range(1 if rng.random() < 0.8 else 2):
+                        atts.append((order[rng.randrange(max(0, i - 6), i)], order[i]))
+                rng.shuffle(atts)
+                fws.append((n, atts))
+            else:
+                parts = []
+                tot = 0
+                while tot < rng.randint(13, 40):
+                    if kind == "dagcomps" and rng.random() < 0.5:
+                        k = rng.randint(9, 20)
+                        a = [(rng.randrange(max(0, i - 4), i), i) for i in range(1, k)]
+                        parts.append((k, a))
+                    else:
+                        k = rng.randint(1, 6)
+                        parts.append(gen.rand_af(rng, k))
+                    tot += parts[-1][0]
+                n, atts = gen.disjoint_union(parts)
+                perm = list(range(n))
+                rng.shuffle(perm)
+                fws.append((n, [(perm[a], perm[b]) for a, b in atts]))
         # both sides of the hybrid threshold (16 / 32 / 64)
         for (a, b) in [(4, 2), (5, 2), (6, 2), (2, 4), (3, 3)]:
             if tier != "quick" or (a, b) in [(4, 2), (5, 2)]:
@@ -152,7 +201,7 @@ class SolveProperty(Property):
         lines = []
         combos = self.combos()
         for (n, atts) in self.frameworks(tier, rng):
-            big = n > 10
+            big = n > 10 and max([0] + [comps_of(n, atts).count(r) for r in set(comps_of(n, atts))]) > 8 and not acyclic(n, atts)
             spec, labels = gen.spec_of(rng, n, atts)
             # a few solver configurations per framework, all of them over the run
             chosen = combos if (n <= 2 and tier != "quick") else rng.sample(combos, min(len(combos), 3 if tier == "quick" else 5))
@@ -201,7 +250,7 @@ class SolveProperty(Property):
         if not verdicts:
             fs.append(Finding("correspondence", case_line, "no verdict from the oracle", self.id + " · no-verdict"))
         for v in verdicts:
-            if v == "verdict ok":
+            if v == "verdict ok" or v == "verdict unjudged":
                 continue
             reason = v[len("verdict "):]
             if reason == "PANIC":
